@@ -168,6 +168,12 @@ def finish(ctx, explanation, seed=0):
         for b in ctx.broken:
             print("  (also analysis-broken: %s)" % b)
 
+    if os.environ.get("CARQSA_DUMP"):
+        pat = os.environ["CARQSA_DUMP"]
+        for o in ctx.obs:
+            if pat in o.key or pat in o.rule:
+                print("  [dump] %s [%s] %s at %s: %s%s" % (o.status, o.rule, o.key, o.where, o.what,
+                                                         (" -- " + o.how) if o.how else ""))
     nob = len(ctx.obs)
     ndis = sum(1 for o in ctx.obs if o.status == DISCHARGED)
     nsup = sum(1 for o in ctx.obs if o.status == SUPPRESSED)
